@@ -193,8 +193,13 @@ def encode(aut, L=None):
         for v in V:
             out.append("(declare-const %s_%d Bool)" % (v, t))
     out.append("(assert (= pc_0 0))")
+    # the entry block's own events fire at step 0
+    init = dict(aut.vars)
+    for (lbl, var, val) in aut.updates:
+        if 0 in aut.events.get(lbl, ()):
+            init[var] = val
     for v in V:
-        out.append("(assert (= %s_0 %s))" % (v, "true" if aut.vars[v] else "false"))
+        out.append("(assert (= %s_0 %s))" % (v, "true" if init[v] else "false"))
     cases = " ".join("(and (= a %d) (or %s))" % (i, " ".join("(= b %d)" % s for s in sorted(set(succs[i])))) for i in nodes)
     out.append("(define-fun step ((a Int) (b Int)) Bool (or %s))" % cases)
 
